@@ -618,6 +618,10 @@ class World:
                 self.console.foreign[what][int(i)] = dict(st, **{key: int(i)})
         self.console.publish(step["what"], step.get("ids"))
 
+    def op_console_unreported(self, step) -> None:
+        """Zones that appear in the names answer but in no status frame until further notice (an empty list ends it)."""
+        self.console.unreported = set(step.get("zones", []))
+
     def op_console_report_foreign(self, step) -> None:
         """From now on the console's full status answers also list records of entities the installation does not contain
         (a group enabled on the console but never named, say), in front of the known ones."""
